@@ -720,7 +720,7 @@ theorem restart_is_image (v : Variant) (f : Faults) (s : Auth) (h : (Auth.step v
     | false =>
       have := reload_image f { s with calls := 0 } (by rw [hr])
       rw [hr] at this
-      simpa using this
+      simpa [IsImage] using this
 
 /-- **cache_eq_store (failed admin update / delete)** — when the database write of `UpdateAdmin`
     or `RemoveAdmin` fails and the request reports that failure, the cache has been rebuilt from
